@@ -43,6 +43,31 @@ THEOREMS = [
     "JanetModel.Bytecode.VMPasses.pcMap_mono",
     "JanetModel.Bytecode.VMPasses.removeNoops_length",
     "JanetModel.Bytecode.VMPasses.removeNoops_get",
+    # session 3: full interpreter (calls, pushes, constructors, closures, upvalues), apply, splice, passes over it
+    "JanetModel.Bytecode.VM.stepX_total",
+    "JanetModel.Bytecode.VM.execX_of_exec",
+    "JanetModel.Spec.pushLeading_exec",
+    "JanetModel.Spec.apply_inline_tail",
+    "JanetModel.Spec.apply_inline_call",
+    "JanetModel.Spec.apply_loop",
+    "JanetModel.Spec.apply_template_correct",
+    "JanetModel.Props.C15.apply_row_ok",
+    "JanetModel.Props.C15.apply_inline_eq_generic",
+    "JanetModel.Spec.pushSlots_exec",
+    "JanetModel.Spec.generic_call_tail",
+    "JanetModel.Spec.splice_selects_generic",
+    "JanetModel.Spec.select_no_splice",
+    "JanetModel.Props.C15.pushslots_shape_ok",
+    "JanetModel.Props.C15.spliced_call_is_generic",
+    "JanetModel.Props.C15.apply_eq_splice",
+    "JanetModel.Bytecode.VMPasses.stepX_core",
+    "JanetModel.Bytecode.VMPasses.remove_noops_preserves_x",
+    "JanetModel.Bytecode.VMPasses.callCore_respects",
+    "JanetModel.Bytecode.VMPasses.coreX_respects",
+    "JanetModel.Bytecode.VMPasses.movopt_preserves_x",
+    "JanetModel.Bytecode.VMPasses.movopt_preserves_tables_x",
+    "JanetModel.Props.C15.movopt_preserves_instance_x",
+    "JanetModel.Props.C15.remove_noops_retargets_ok",
 ]
 
 
@@ -70,6 +95,10 @@ def run(ctx, quick, broken, janet, scratch):
     if exe:
         try:
             cov.update(correspondence(ctx, quick, broken, janet, scratch, exe, tree))
+            cc = call_correspondence(ctx, quick, broken, janet, scratch, exe, tree)
+            cov["evaluations"] = cov.get("evaluations", 0) + 2 * cc["call_correspondence_completed"]
+            cov["distinct_nontrivial"] = cov.get("distinct_nontrivial", 0) + cc.pop("call_correspondence_distinct")
+            cov.update(cc)
         except ExtractError as e:
             msg = "translator (mnemonics / names): %s" % e
             broken.append(msg)
@@ -164,3 +193,97 @@ def correspondence(ctx, quick, broken, janet, scratch, exe, tree):
     return {"model_correspondence_cases": len(cases), "model_correspondence_completed": len(impl), "model_correspondence_diffs": len(diffs),
             "model_correspondence_first_diffs": diffs[:5], "evaluations": 3 * len(impl), "distinct_nontrivial": len(set(gen.model_driver_line(c) for c in cases)),
             "model_correspondence_samples": [gen.model_driver_line(cases[i]) for i in (1, len(cases) // 2, len(cases) - 1)]}
+
+
+# --------------------------------------------------------------------------------------------- apply / splice correspondence
+def _jval(v):
+    """(driver token, janet literal) of a generated value: ('int', n) | ('arr', n, tuple?) | ('nil',) | ('true',)"""
+    if v[0] == "int":
+        return str(v[1]), str(v[1])
+    if v[0] == "arr":
+        elems = " ".join(str(100 + i) for i in range(v[1]))
+        return "TA%d" % v[1], ("[%s]" % elems if v[2] else "@[%s]" % elems)
+    return v[0], v[0]
+
+
+def call_cases(rng, quick):
+    cases = []
+    lasts = [("arr", 0, False), ("arr", 1, True), ("arr", 3, False), ("arr", 4, True), ("int", 5), ("nil",), ("true",)]
+    for n in range(0, 9 if quick else 40):
+        for tail in (True, False):
+            for last in (lasts if n < 5 else [lasts[rng.below(len(lasts))], lasts[rng.below(4)]]):
+                cases.append(("apply", tail, [("int", rng.below(200) - 100) for _ in range(n)], last))
+    for _ in range(160 if quick else 3000):
+        n = 1 + rng.below(9 if quick else 30)
+        pat = [("s" if rng.below(3) == 0 else "v") for _ in range(n)]
+        if "s" not in pat:
+            pat[rng.below(n)] = "s"
+        vals = []
+        for c in pat:
+            if c == "s":
+                vals.append(("arr", rng.below(4), rng.below(2) == 0) if rng.below(8) else lasts[4 + rng.below(3)])
+            else:
+                vals.append(("int", rng.below(200) - 100))
+        cases.append(("splice", "".join(pat), vals))
+    for pat in ("v", "vv", "vvv", "vvvv", "vvvvvvv"):        # the no-splice branches of janetc_pushslots (first-class call of a parameter)
+        cases.append(("splice", pat, [("int", k) for k in range(len(pat))]))
+    return cases
+
+
+def call_correspondence(ctx, quick, broken, janet, scratch, exe, tree):
+    """(D) `do_apply` and `janetc_pushslots` + call: opcode sequence of the modelled emitters (Spec.emitApply, Spec.emitGenericCall)
+    vs the real compiler's disasm, and the argument list the callee receives / the not-indexed error (VM.execX on the modelled code
+    vs the real VM)."""
+    import re
+    from vlib.core import run_cmd
+    here = os.path.dirname(os.path.abspath(__file__))
+    mnem = gen_cfuns.mnemonics(tree)
+    rng = ctx.rng.fork("calls")
+    cases = call_cases(rng, quick)
+    drv, jl = [], []
+    for i, c in enumerate(cases):
+        if c[0] == "apply":
+            _, tail, lead, last = c
+            drv.append("apply %s %s %s" % ("tail" if tail else "val", _jval(last)[0], " ".join(_jval(v)[0] for v in lead)))
+            jl.append("(AP %d %s [%s] %s)" % (i, "true" if tail else "false", " ".join(_jval(v)[1] for v in lead), _jval(last)[1]))
+        else:
+            _, pat, vals = c
+            drv.append("splice %s %s" % (pat, " ".join(_jval(v)[0] for v in vals)))
+            jl.append('(SP %d "%s" [%s])' % (i, pat, " ".join(_jval(v)[1] for v in vals)))
+    pth = os.path.join(scratch, "apply-corr.janet")
+    with open(pth, "w") as f:
+        f.write(open(os.path.join(here, "apply.janet")).read() + "\n" + "\n".join(jl) + "\n(file/flush stdout)\n")
+    env = dict(os.environ, ASAN_OPTIONS="detect_leaks=0:abort_on_error=0")
+    rc, out, err = run_cmd([janet, pth], timeout=600, env=env)
+    impl = {}
+    for line in out.decode(errors="replace").splitlines():
+        m = re.match(r"^(\d+) OPS (\S*) OUT (.*)$", line)
+        if m:
+            ops = [mnem.get(x, ("?" + x, ""))[0] for x in m.group(2).split(",") if x and x not in MOVES]
+            impl[int(m.group(1))] = (",".join(ops), m.group(3))
+    model = ctx.model(drv, exe=exe)
+    diffs, shapes = [], {}
+    for i, c in enumerate(cases):
+        m = re.match(r"^ops=(\S*) out=(.*)$", model[i])
+        if i not in impl or not m:
+            diffs.append({"case": drv[i], "model": model[i], "impl": impl.get(i), "field": "missing"})
+            continue
+        mops = ",".join(x for x in m.group(1).split(",") if x not in ("JOP_RETURN", "JOP_MOVE_NEAR"))
+        shapes[mops] = shapes.get(mops, 0) + 1
+        for fld, a, b in (("ops", mops, impl[i][0]), ("out", m.group(2), impl[i][1])):
+            if a != b:
+                diffs.append({"case": drv[i], "janet": jl[i], "field": fld, "model": a, "impl": b})
+    if rc != 0:
+        msg = "apply/splice correspondence: implementation run failed: %s" % err.decode(errors="replace")[-300:]
+        broken.append(msg)
+        ctx.broken.append(msg)
+    if diffs:
+        msg = "correspondence Spec.emitApply / Spec.pushSlots vs implementation: %d differing fields, first %r" % (len(diffs), diffs[0])
+        broken.append(msg)
+        ctx.broken.append(msg)
+    return {"call_correspondence_cases": len(cases), "call_correspondence_completed": len(impl), "call_correspondence_diffs": len(diffs),
+            "call_correspondence_first_diffs": diffs[:5], "call_correspondence_distinct_instruction_shapes": len(shapes),
+            "call_correspondence_distinct": len(set(drv)),
+            "call_correspondence_kinds": {"apply": sum(1 for c in cases if c[0] == "apply"), "splice": sum(1 for c in cases if c[0] == "splice"),
+                                          "not_indexed_errors": sum(1 for v in impl.values() if v[1] == "error:notindexed")},
+            "call_correspondence_samples": [drv[k] for k in (0, len(drv) // 2, len(drv) - 1)]}
